@@ -318,7 +318,7 @@ def _rebuild(msg, **changes):
     if isinstance(msg, M.Invocation):
         return M.Invocation(msg.request, msg.registration, receive_progress=msg.receive_progress, **f)
     if isinstance(msg, M.Event):
-        return M.Event(msg.subscription, msg.publication, **f)
+        return M.Event(msg.subscription, f.pop("publication", msg.publication), **f)
     if isinstance(msg, M.Result):
         return M.Result(msg.request, progress=msg.progress, **f)
     if isinstance(msg, M.Error):
@@ -475,6 +475,10 @@ class Scenario:
             self.captured["last"] = msg
             if f and f.get("armed") and msg.payload is not None:
                 t = f["type"]
+                if f.get("publication") is not None and isinstance(msg, M.Event):
+                    # the router repeats the publication id of an EVENT delivered earlier
+                    # (duplicate / retransmission / replay): ids are not authenticated
+                    msg = _rebuild(msg, publication=f["publication"])
                 if t == "field":
                     self.fault_applied += 1
                     return _rebuild(msg, **{f["field"]: f["value"]})
@@ -754,7 +758,17 @@ def run_fault(layout, d, ser, fault, stats, uri=None, err_uri=None):
             sc.fault = {"type": "replace-payload", "payload": donor.payload, "armed": True}
             box = sc.op(args, kwargs)
     else:
-        sc.fault = dict(fault, armed=True)
+        extra = {}
+        if fault.get("after_genuine") and d == "publish":
+            # a genuine EVENT is delivered (and decoded) first; the altered one then arrives under
+            # the same publication id
+            sc.op(args, kwargs)
+            if not sc.calls:
+                raise RuntimeError("harness: genuine EVENT not delivered")
+            extra["publication"] = sc.captured["last"].publication
+            sc.calls[:] = []
+            stats["altered_event_repeats_publication_id"] += 1
+        sc.fault = dict(fault, armed=True, **extra)
         box = sc.op(args, kwargs)
     bad = check_fault_outcome(sc, box, stats)
     return sc, box, bad, sc.fault_applied
@@ -819,6 +833,17 @@ def job(a):
                     col.add("C20|tamper-%s|%s|%s|%s" % (clause, d, ser, pos_class(pos)),
                             "layout=%s pos=%d/%d mask=%02x: %s" % (layout, pos, L, mask, detail),
                             {"kind": "fault", "layout": layout, "dir": d, "ser": ser, "fault": fault})
+                if d == "publish" and mask == a["masks"][0]:
+                    fault2 = dict(fault, after_genuine=True)
+                    sc, box, bad, applied = run_fault(layout, d, ser, fault2, st)
+                    col.evals += 1
+                    st["tamper_execs"] += 1
+                    for clause, detail in bad:
+                        col.add("C20|tamper-%s|%s|%s|%s|after-genuine-same-publication" % (
+                            clause, d, ser, pos_class(pos)),
+                            "layout=%s pos=%d/%d mask=%02x, after a genuine EVENT with the same "
+                            "publication id: %s" % (layout, pos, L, mask, detail),
+                            {"kind": "fault", "layout": layout, "dir": d, "ser": ser, "fault": fault2})
         if positions:
             col.samples.append({"kind": "tamper", "layout": layout, "dir": d, "ser": ser,
                                 "ciphertext_len": L, "positions": len(positions),
